@@ -548,6 +548,12 @@ func (s *Sched) enabledThreads() []*Thread {
 	return out
 }
 
+// ForgetLastRun makes the next thread choice free of charge: at the start of
+// a concurrent block no thread "is running", so every start order costs 0.
+//
+//go:norace
+func (s *Sched) ForgetLastRun() { s.lastRun = nil }
+
 // Quiescent reports whether no thread can run.
 //
 //go:norace
